@@ -71,6 +71,10 @@ def rule_path(ctx, R):
         # does the function append by itself?
         appends = any(callee(t) == APPEND for _, t in b.calls())
         for i, c in sites:
+            # compensation: pushing back an element this very function popped (delivery failed)
+            if c in (ENGINE + "lpush", ENGINE + "rpush") and any(cc in (ENGINE + "lpop", ENGINE + "rpop") for _, cc in sites) and in_delivery_failure(b, i):
+                R.note("%s: push-back of a popped element (not a new effect)" % fn)
+                continue
             n += 1
             R.inst(fn, "mut:" + c[len(ENGINE):], {"function": fn, "mutator": c[len(ENGINE):], "at": b.loc(i), "appends_itself": appends})
             if not appends:
@@ -106,6 +110,20 @@ def rule_path(ctx, R):
     R.inst(PNC, "hook-before-dispatch", {"aof_presence_tests": len(present), "dispatch_tests_after_hook": len(later), "ok": ok})
     if not ok:
         R.finding(PNC, "hook-before-dispatch", "some dispatcher arm can be reached without passing the AOF hook", pb.loc(ap[0]) if ap else pb.loc())
+
+
+def in_delivery_failure(b, i):
+    """is block i on the failure edge of a send_frame call (and not on its success edge)?"""
+    for j, t in b.calls():
+        if callee(t) == "network::connection::Connection::send_frame":
+            rs = shared.result_switch(b, j)
+            if rs:
+                fail = set()
+                for f0 in rs["fail"]:
+                    fail |= cfg.dom_set(b, f0)
+                if i in fail:
+                    return True
+    return False
 
 
 def rule_db(ctx, R):
